@@ -1,13 +1,9 @@
 #![no_main]
-//! C04: Document::load_mem / IncrementalDocument::load_from on raw bytes. Any panic (overflow checks are on in
-//! cargo-fuzz builds), abort, stack overflow, timeout or out-of-memory is a libFuzzer crash.
+//! libFuzzer front end of the 'load' target; the decoding of the bytes into worker calls lives in lv::props::fuzzdec
+//! (shared with the confirmation step of the thorough tier). Any panic (overflow checks are on), abort, stack
+//! overflow, timeout or out-of-memory is a libFuzzer artifact, which the check re-runs in the isolated worker.
 use libfuzzer_sys::fuzz_target;
-use lv::props::entries::{dispatch, E_INCLOAD, E_LOAD};
 
 fuzz_target!(|data: &[u8]| {
-    if data.len() > 65536 {
-        return;
-    }
-    let _ = dispatch(E_LOAD, data);
-    let _ = dispatch(E_INCLOAD, data);
+    lv::props::fuzzdec::fuzz_one("load", data);
 });
